@@ -68,6 +68,9 @@ def prefix_keys(facts):
     return out
 
 
+HAZARD_TAGS = ("-missingswamp", "-negfrom", "-badkey", "-ctxignored", "-name65k")
+
+
 def compatible(op, impl, model, pkeys, flags=()):
     """model prediction vs implementation reply, field by field"""
     if impl == model:
@@ -77,8 +80,8 @@ def compatible(op, impl, model, pkeys, flags=()):
     rpc = op.split(" ")[1]
     ci, fi = fields(impl)
     cm, fm = fields(model)
-    if ci == "hang" and any(f.endswith("-ctxignored") for f in flags):
-        return True          # the recorded hazard itself: the handler waits on a context detached from its caller's
+    if any(f.endswith(t) for f in flags for t in HAZARD_TAGS) and impl_violation(op, impl):
+        return True          # the model flags an engine fact (`need` step) here and the implementation shows the violation
     for k in ("p", "lock", "vig", "close"):
         if fi.get(k) != fm.get(k):
             return False
@@ -222,7 +225,7 @@ def run(ctx):
             # a line the model flags because of an engine fact (`need` step) counts as reproduced only where the
             # implementation's own reply shows the violation (e.g. only the legacy engine persists the empty swamp)
             for i, fl in enumerate(c.flags):
-                if fl and any(fl[0].endswith(t) for t in ("-missingswamp", "-negfrom", "-badkey", "-ctxignored")):
+                if fl and any(fl[0].endswith(t) for t in HAZARD_TAGS):
                     op = c.ops[i] if i < len(c.ops) else ""
                     if i < len(c.impl) and not impl_violation(op, c.impl[i]):
                         c.flags[i] = []
